@@ -1,13 +1,21 @@
 #!/bin/bash
-# Runs every kept seeded change against the check of its property and writes seeded/MATRIX.txt
+# tools/seeded_matrix.sh [seed ...]  - runs every kept seeded change against the check of its
+# property (quick tier) at each given VERIF_SEED (default: 1) and writes seeded/MATRIX.txt:
+#   <change> -> detected k/n  [seeds that missed]
 cd "$(dirname "$0")/.." || exit 2
+seeds=${@:-1}
 out=seeded/MATRIX.txt; : > $out.tmp
 for d in seeded/C??* ; do
   [ -f $d/patch.diff ] || continue
   case $d in *superseded*) continue;; esac
   id=$(basename $d | cut -c1-3)
-  line=$(tools/mutation_check.py $d/patch.diff $id 2>&1 | grep "exit=" | head -1)
-  echo "$(basename $d) -> $line" | tee -a $out.tmp
+  hit=0; n=0; missed=""
+  for s in $seeds; do
+    n=$((n+1))
+    if VERIF_SEED=$s tools/mutation_check.py $d/patch.diff $id 2>&1 | grep -q "exit=1 detected"; then hit=$((hit+1)); else missed="$missed $s"; fi
+  done
+  echo "$(basename $d) -> $id detected $hit/$n${missed:+  missed at seed(s):$missed}" | tee -a $out.tmp
 done
 mv $out.tmp $out
-grep -c detected $out; grep -v detected $out
+echo "changes: $(wc -l < $out)  detected at every seed: $(grep -c "detected \([0-9]*\)/\1" $out)"
+grep -v "detected \([0-9]*\)/\1" $out
